@@ -164,6 +164,8 @@ pub fn gen(tier: &str, seed: u64, out: &mut Out) {
         push(out, json!({"ty": ty, "refine": refine, "cls": "deg0", "sep": false, "a": hexvec(&[0.0]), "ai": hexvec(&[0.0])}));
         push(out, json!({"ty": ty, "refine": refine, "cls": "empty", "sep": false, "a": [], "ai": []}));
     } }
+    // vanishing leading coefficient: outside the property (anything accepted), exercised for the record
+    for ty in ["f64", "cx"] { push(out, json!({"ty": ty, "refine": false, "cls": "leadzero", "sep": false, "a": hexvec(&[1.0, 2.0, 0.0]), "ai": hexvec(&[0.0, 0.0, 0.0])})); }
     let reps = if quick { 3 } else { 60 };
     for n in 1..=12usize { for rep in 0..reps { for cx in [false, true] {
         let lead_mag = 10f64.powf(unif(&mut rng, -2.0, 2.0)) * if rng.gen_bool(0.5) { 1.0 } else { -1.0 };
